@@ -49,6 +49,7 @@ pub fn spec() -> Spec {
         counters,
         signature,
         slice: false,
+        obs: false,
         also_check: false,
     }
 }
